@@ -10,8 +10,9 @@ LEVEL_TEXT = ("Coq theorems about the model of the cache + browser logic: a resp
               "browsed type (live PTR, SRV, address) with a NEW record yields ServiceResolved in the same "
               "handle_response, a new PTR with TTL > 1 yields ServiceFound first; the follow-up chain asks at +500 ms, "
               "at most 3 times, (instance, ANY) while no SRV is cached and (host, A/AAAA) afterwards; the history-level "
-              "statement chk_C04 is REFUTED for the faithful model (witnesses in Props/C04.v) in four classes that are "
-              "listed as known findings. Model tied to the Rust daemon by the K6 simulation (model trace = projected "
+              "statement chk_C04 is REFUTED for the faithful model (witness in Props/C04.v) in the two classes that "
+              "stay as known findings (dotted instance label; record refreshed in its last second); the spec cache "
+              "chk_C04 judges against is proved to be the model's cache for all histories. Model tied to the Rust daemon by the K6 simulation (model trace = projected "
               "implementation trace); the extracted viol_C04 runs on the implementation's events, questions and "
               "requested wake-ups")
 TECHNIQUE = ("machine-checked proof in Coq (component theorems, refutation witnesses by vm_compute) + model/implementation "
@@ -23,15 +24,16 @@ RULE = ("all partitions/orders/duplications of an instance's record set (PTR, SR
         "A/AAAA answers arriving before, between, after the follow-up questions or never, PTR expiry and re-announcement; "
         "lifecycle histories (updates, goodbyes, restarts, stop/re-browse, verify); instance labels with spaces, "
         "backslash, non-ASCII, dots (known finding), hosts whose case differs between SRV target and address owner "
-        "(known finding); timer-exact and late schedules; non-trivial = at least one event or follow-up question")
+        "(repaired: must resolve), instances under type and subtype PTR; timer-exact and late schedules; non-trivial = at least one event or follow-up question")
 TRUSTED = bc.TRUSTED_COMMON
 PARTIAL = ("History-level completeness (chk_C04 over all histories) is not a theorem: it is false of the faithful model "
-           "(4 known-finding classes, refutation witnesses proved); outside those classes it is checked by the monitor on "
+           "(2 known-finding classes, refutation witness proved; the witnesses of the classes repaired in round 2 - restart, "
+           "stale pending_resolves, host case - are examples/corpus cases that pass); outside those classes it is checked by the monitor on "
            "the implementation and on the model for every generated history, and the component theorems cover the "
            "resolution step and the follow-up chain. 'At least one address in the interface's subnet' is not used by "
            "the code and not required by the checker. The third and second follow-up times are tied by model/"
-           "implementation equality; the monitor checks the first follow-up (+500 ms, right question, wake-up requested), "
-           "the bound of 3 and the asked names.")
+           "implementation equality and by the monitor's chained obligations (each try at +500 ms of the previous one, "
+           "right question, wake-up requested), the bound of 3 and the asked names.")
 
 project = bc.project_line
 model_input = bc.model_input_line
